@@ -15,7 +15,7 @@ p=sys.argv[1]+'/meta.json'; m=json.load(open(p)); m['detected_by']='patch no lon
 PY
      rm -rf $W; continue; fi
   fi
-  VCHECK_REPO=$W VCHECK_OUT=$W/_out /verif/bin/vcheck check --prop $P --tier quick > $W/_check.log 2>&1; rc=$?
+  VCHECK_REPO=$W VCHECK_OUT=$W/_out ${VCHECK_BIN:-/verif/bin/vcheck} check --prop $P --tier quick > $W/_check.log 2>&1; rc=$?
   python3 - $D $W/_check.log $rc $P <<'PY'
 import json,sys,re
 d,log,rc,P=sys.argv[1:5]
